@@ -480,13 +480,23 @@ def _row_count(ctx: Context, fi: FuncInfo, arg: Optional[ast.expr], nd) -> Optio
                 g = comp.generators[0]
                 it = g.iter
                 if isinstance(it, ast.Call) and dotted(it.func) == "range" and len(it.args) == 1:
-                    r = norm_text(it.args[0])
+                    r = _res_text(fi, it.args[0], d.node)
                 elif isinstance(it, ast.Name):
                     r = _rows_of_name(ctx, fi, it, d.node)
         rows.add(r)
     if len(rows) == 1:
         return rows.pop()
     return None
+
+
+def _res_text(fi: FuncInfo, e: ast.expr, at) -> str:
+    """text of a size expression with plain local aliases (n = self.n_particles) written out"""
+    if at is not None and isinstance(e, ast.Name):
+        try:
+            return norm_text(ExprResolver(fi.node).resolve(e, at))
+        except Exception:
+            pass
+    return norm_text(e)
 
 
 def _rows_of_name(ctx: Context, fi: FuncInfo, name: ast.Name, nd) -> Optional[str]:
@@ -510,7 +520,7 @@ def _rows_of_name(ctx: Context, fi: FuncInfo, name: ast.Name, nd) -> Optional[st
             size_kw = next((k.value for k in v.keywords if k.arg == "size"), None)
             if (ctx.res.external_name(fi2, v) or "") == "numpy.random.uniform" and size_kw is not None:
                 a0 = size_kw.elts[0] if isinstance(size_kw, ast.Tuple) else size_kw
-            out.add(norm_text(a0))
+            out.add(_res_text(fi2, a0, lk.node if hasattr(lk, 'node') else None))
             continue
         if isinstance(v, ast.Call) and (ctx.res.external_name(fi, v) or "") in ("numpy.empty_like", "numpy.zeros_like") and v.args:
             a = v.args[0]
